@@ -62,6 +62,7 @@ func main() {
 	consts := map[string]int64{}
 	var constNames []string
 	byteVars := map[string][]int64{}
+	byteVarElts := map[string][]ast.Expr{}
 	funcs := map[string]*ast.FuncDecl{}
 	var panicSites, writeSites []string
 	for _, f := range files {
@@ -93,13 +94,7 @@ func main() {
 						}
 						if d.Tok == token.VAR {
 							if cl, ok := vs.Values[i].(*ast.CompositeLit); ok && exprString(cl.Type) == "[]byte" {
-								var bs []int64
-								for _, el := range cl.Elts {
-									if n, ok := constInt(el); ok {
-										bs = append(bs, n)
-									}
-								}
-								byteVars[name.Name] = bs
+								byteVarElts[name.Name] = cl.Elts
 							}
 						}
 					}
@@ -287,6 +282,20 @@ func main() {
 			parts[i] = leanStr(x)
 		}
 		return "[" + strings.Join(parts, ", ") + "]"
+	}
+	// byte-slice literals: elements are integer literals or named integer constants
+	for name, elts := range byteVarElts {
+		var bs []int64
+		for _, el := range elts {
+			if n, ok := constInt(el); ok {
+				bs = append(bs, n)
+			} else if id, ok := el.(*ast.Ident); ok {
+				if n, ok := consts[id.Name]; ok {
+					bs = append(bs, n)
+				}
+			}
+		}
+		byteVars[name] = bs
 	}
 	fmt.Fprintf(&b, "def sign1MessagePrefix : List Nat := %s\n", intList(byteVars["sign1MessagePrefix"]))
 	fmt.Fprintf(&b, "def signMessagePrefix : List Nat := %s\n", intList(byteVars["signMessagePrefix"]))
